@@ -52,7 +52,11 @@ def check_case(case, rec):
                 joined = auditok.split_and_join_with_silence(
                     rd, run.join_sil, energy_threshold=run.thr, use_channel=case["audio"].get("uc"),
                     **pipeline.split_kwargs(case))
-                _params, frames = pipeline.read_wav(run.joiner_path)
+                if getattr(run, "joiner_ext", ".wav") == ".raw":
+                    with open(run.joiner_path, "rb") as fp:
+                        frames = fp.read()
+                else:
+                    _params, frames = pipeline.read_wav(run.joiner_path)
                 if (b"" if joined is None else bytes(joined)) != frames:
                     raise Violation("joined file differs from split_and_join_with_silence() of the same input", case)
             if not exp:
